@@ -369,6 +369,38 @@ pub fn c09(tier: &str, seed: u64) -> Vec<Case> {
             }
         }
     }
+    // the option triples through writers that take a few bytes per call, and into storage that ends inside the last
+    // option value: the same bytes, or an error - never a shortened value reported as success
+    for i in 0..(if thorough { 300 } else { 40 }) {
+        let mut p = Packet::new_reply(i as u16);
+        let mut o = g.opt();
+        if o.opt_codes.is_empty() || i % 2 == 0 { o.opt_codes.push(simple_dns::rdata::OPTCode { code: 10, data: r.bytes(8 + (i % 17) as usize).into() }); }
+        *p.opt_mut() = Some(o);
+        p.additional_records.push(g.rr_of(0));
+        let want = match p.build_bytes_vec() { Ok(b) => b, Err(_) => continue };
+        let wantc = p.build_bytes_vec_compressed().unwrap_or_default();
+        let mut c = Case::oracle_only().tag("opt-slow-writer");
+        for chunk in [1usize, 5, 7] {
+            let mut sink = crate::props::wr::SlowSink { inner: std::io::Cursor::new(vec![]), chunk, interrupt: chunk == 5, tick: 0 };
+            let ok = std::panic::catch_unwind(std::panic::AssertUnwindSafe(|| p.write_to(&mut sink).is_ok())).unwrap_or(false);
+            if !ok || sink.inner.get_ref()[..] != want[..] { c = c.fail("opt-rdata", format!("write_to through a writer accepting {} byte(s) per call does not emit the bytes of build_bytes_vec (option values must be written in full)", chunk)); }
+            let mut sink = crate::props::wr::SlowSink { inner: std::io::Cursor::new(vec![]), chunk, interrupt: false, tick: 0 };
+            let ok = std::panic::catch_unwind(std::panic::AssertUnwindSafe(|| p.write_compressed_to(&mut sink).is_ok())).unwrap_or(false);
+            if !ok || sink.inner.get_ref()[..] != wantc[..] { c = c.fail("opt-rdata", format!("write_compressed_to through a writer accepting {} byte(s) per call does not emit the bytes of build_bytes_vec_compressed", chunk)); }
+        }
+        // fixed storage ending 1 .. 6 bytes before the end of the OPT record
+        if let Some(w) = walker::walk(&want) {
+            if let Some(e) = w.sections[2].iter().find(|e| e.typ == 41) {
+                for short in 1..=6usize {
+                    if e.next() <= short || e.rd_len < short { continue; }
+                    let mut store = vec![0u8; e.next() - short];
+                    let res = { let mut cur = std::io::Cursor::new(&mut store[..]); std::panic::catch_unwind(std::panic::AssertUnwindSafe(|| p.write_to(&mut cur).is_ok())).unwrap_or(true) };
+                    if res { c = c.fail("opt-rdata", format!("write_to into storage that ends {} byte(s) before the end of the OPT record reports success", short)); }
+                }
+            }
+        }
+        v.push(c);
+    }
     // parsing messages encoded independently, OPT at every index of the additional section, in the
     // library's TTL layout (what it emits) and in the RFC's
     let n = if thorough { 6000 } else { 500 };
